@@ -31,6 +31,7 @@ from pdfminer.pdfexceptions import (
     PDFKeyError,
     PDFObjectNotFound,
     PDFTypeError,
+    PDFValueError,
 )
 from pdfminer.pdfparser import PDFParser, PDFStreamParser, PDFSyntaxError
 from pdfminer.pdftypes import (
@@ -585,7 +586,11 @@ class PDFStandardSecurityHandlerV5(PDFStandardSecurityHandlerV4):
             return None
 
     def authenticate(self, password: str) -> Optional[bytes]:
-        password_b = self._normalize_password(password)
+        try:
+            password_b = self._normalize_password(password)
+        except PDFValueError:
+            # a string SASLprep rejects cannot be the password
+            return None
         hash = self._password_hash(password_b, self.o_validation_salt, self.u)
         if hash == self.o_hash:
             hash = self._password_hash(password_b, self.o_key_salt, self.u)
@@ -613,7 +618,9 @@ class PDFStandardSecurityHandlerV5(PDFStandardSecurityHandlerV4):
                 return b""
             from pdfminer._saslprep import saslprep
 
-            password = saslprep(password)
+            # the password being checked is a "query" in the sense of
+            # RFC 3454: unassigned code points are allowed
+            password = saslprep(password, prohibit_unassigned_code_points=False)
         return password.encode("utf-8")[:127]
 
     def _password_hash(
